@@ -3,7 +3,7 @@ import os
 import re
 import time
 
-from ..e1 import VERIF, WORK, log
+from ..e1 import VERIF, WORK, REPO, TARGET, log
 from mir_smt import mir, symex, bmc
 
 PROP_ID = "C16"
@@ -76,7 +76,7 @@ def run_function(kind, crate, fn_regex, tier, out):
     os.makedirs(mdir, exist_ok=True)
     path = os.path.join(mdir, crate + ".mir")
     try:
-        mir.dump_mir(os.path.join("/repo/crates", crate), path, os.path.join(VERIF, ".target", "mir"))
+        mir.dump_mir(os.path.join(REPO, "crates", crate), path, os.path.join(TARGET, "mir"))
         text = open(path).read()
         fns = mir.parse_functions(text, fn_regex)
         if len(fns) != 1:
